@@ -29,57 +29,59 @@ def vsortObj (le : σ → σ → Bool) (desc : Bool) (keys : List σ) (na : List
   let idx := argsortPy le desc keys
   idx.filter (fun i => !na[i]!) ++ idx.filter (fun i => na[i]!)
 
-/-- positions of the non-missing / missing elements, increasing. -/
-def nonNaIdx (xs : List (Option κ)) : List Nat :=
-  (List.range xs.length).filter (fun i => !isNa xs[i]!)
-def naIdx (xs : List (Option κ)) : List Nat :=
-  (List.range xs.length).filter (fun i => isNa xs[i]!)
+/-- NumPy boolean-mask assignment `out[mask] = vals` (vals consumed in order). -/
+def putMask : List Bool → List Nat → List Nat → List Nat
+  | [], _, _ => []
+  | _ :: _, [], _ => []
+  | m :: ms, o :: os, vs =>
+    if m then vs.headD 0 :: putMask ms os vs.tail else o :: putMask ms os vs
 
-/-- scatter: `out[idx] = vals` on a zero vector of length `n`
-    (`idx` has no duplicates in all uses). -/
-def scatter (n : Nat) (idx : List Nat) (vals : List Nat) : List Nat :=
-  (List.range n).map (fun i =>
-    match (idx.zip vals).find? (fun p => p.1 == i) with
-    | some p => p.2
-    | none => 0)
+/-- the non-missing values in order: `self[~na]`. -/
+def nonNa (xs : List (Option κ)) : List κ := xs.filterMap id
+
+def zeros (n : Nat) : List Nat := List.replicate n 0
+
+/-- strictly smaller. -/
+def ltOf (le : κ → κ → Bool) (a b : κ) : Bool := le a b && !(le b a)
 
 /-- `Vector.rank(method="min")` after the all-missing guard:
     `inv = np.unique(self[~na], return_inverse=True)[1]`
     `out[~na] = concatenate(([0], bincount(inv))).cumsum()[inv] + 1`
     `out[na]  = (~na).sum() + 1`. -/
 def rankMinCore (le : κ → κ → Bool) (xs : List (Option κ)) : List Nat :=
-  let nn := nonNaIdx xs
-  let vals := nn.filterMap (fun i => xs[i]!)
+  let vals := nonNa xs
   let inv := uniqueInverse le vals
   let cs := cumsum (0 :: bincount inv (sortedDistinct le vals).length)
   let r := inv.map (fun k => cs[k]! + 1)
-  let out := scatter xs.length nn r
-  let naRank := nn.length + 1
-  (List.range xs.length).map (fun i => if isNa xs[i]! then naRank else out[i]!)
+  let out := putMask (xs.map (fun x => !isNa x)) (zeros xs.length) r
+  putMask (xs.map isNa) out (List.replicate xs.length (vals.length + 1))
 
 /-- `Vector.rank(method="max")`:
     `out[~na] = bincount(inv).cumsum()[inv]`, `out[na] = len(self)`. -/
 def rankMaxCore (le : κ → κ → Bool) (xs : List (Option κ)) : List Nat :=
-  let nn := nonNaIdx xs
-  let vals := nn.filterMap (fun i => xs[i]!)
+  let vals := nonNa xs
   let inv := uniqueInverse le vals
   let cs := cumsum (bincount inv (sortedDistinct le vals).length)
   let r := inv.map (fun k => cs[k]!)
-  let out := scatter xs.length nn r
-  (List.range xs.length).map (fun i => if isNa xs[i]! then xs.length else out[i]!)
+  let out := putMask (xs.map (fun x => !isNa x)) (zeros xs.length) r
+  putMask (xs.map isNa) out (List.replicate xs.length xs.length)
+
+/-- `rank[indices] = arange(len(indices)) + 1` for a permutation `indices`:
+    position `p` receives `k + 1` where `indices[k] = p`. -/
+def invPermPlus1 (indices : List Nat) : List Nat :=
+  (List.range indices.length).map (fun p => indices.idxOf p + 1)
 
 /-- `Vector.rank(method="ordinal")`:
     `indices = self[~na].argsort(kind="stable")`; `rank[indices] = arange(len)+1`;
-    `out[~na] = rank`; `out[na] = rank.max() + arange(na.sum()) + 1`. -/
+    `out[~na] = rank`; `out[na] = rank.max() + arange(na.sum()) + 1`
+    (`rank.max()` is `len(rank)`: it is a permutation of `1..len`). -/
 def rankOrdCore (le : κ → κ → Bool) (xs : List (Option κ)) : List Nat :=
-  let nn := nonNaIdx xs
-  let vals := nn.filterMap (fun i => xs[i]!)
+  let vals := nonNa xs
   let indices := argsort le vals
-  let rank := scatter vals.length indices ((List.range vals.length).map (· + 1))
-  let out := scatter xs.length nn rank
-  let nas := naIdx xs
-  let outNa := scatter xs.length nas ((List.range nas.length).map (fun k => vals.length + k + 1))
-  (List.range xs.length).map (fun i => if isNa xs[i]! then outNa[i]! else out[i]!)
+  let rank := invPermPlus1 indices
+  let out := putMask (xs.map (fun x => !isNa x)) (zeros xs.length) rank
+  putMask (xs.map isNa) out
+    ((List.range (xs.length - vals.length)).map (fun k => vals.length + k + 1))
 
 inductive RankMethod | min | max | ordinal
   deriving DecidableEq, Repr
@@ -99,6 +101,29 @@ def vrank (le : κ → κ → Bool) (one : κ) (m : RankMethod) (xs : List (Opti
     The missing value is one more value here (`equal_nan=True`). -/
 def vunique (le : κ → κ → Bool) (naFirst : Bool) (xs : List (Option κ)) : List Nat :=
   (uniqueIndex (leRaw le naFirst) xs).mergeSort (fun a b => a ≤ b)
+
+/-- Specification: "ordered strictly before", the missing value after everything else and
+    missing values tied with each other. -/
+def ltNaLast (le : κ → κ → Bool) : Option κ → Option κ → Bool
+  | some a, some b => ltOf le a b
+  | some _, none => true
+  | none, _ => false
+
+/-- Specification of `rank(method="min")`: one plus the number of elements ordered strictly
+    before the element. -/
+def rankMinSpec (le : κ → κ → Bool) (xs : List (Option κ)) : List Nat :=
+  xs.map (fun x => 1 + (xs.filter (fun y => ltNaLast le y x)).length)
+
+/-- Specification of `rank(method="max")`: the number of elements ordered before or equal. -/
+def rankMaxSpec (le : κ → κ → Bool) (xs : List (Option κ)) : List Nat :=
+  xs.map (fun x => (xs.filter (fun y => !ltNaLast le x y)).length)
+
+/-- Specification order of a sorted vector: ascending or descending on the non-missing values,
+    the missing value after everything in both directions. -/
+def ordDir (le : κ → κ → Bool) (desc : Bool) : Option κ → Option κ → Bool
+  | _, none => true
+  | none, some _ => false
+  | some a, some b => if desc then le b a else le a b
 
 /-- Specification: positions whose value did not occur earlier. -/
 def firstOcc [DecidableEq α] [Inhabited α] (xs : List α) : List Nat :=
